@@ -141,59 +141,70 @@ def rowSum : List (Rat × Nat) → Rat
 def LinContr (wb : Workbook) (xs : Nat → Rat) (q : Rat) : Prop :=
   ∀ c f, wb c = some f → ∃ terms b, f = linFormula terms b ∧ rowSum terms ≤ q ∧ xs c = linSum terms xs + b
 
-/-- all values a read can return are within `E` of the fixed point; cells computed in this pass within `q·E` -/
-def GH (xs : Nat → Rat) (q E : Rat) (s : St) : Prop :=
-  (∀ d, rabs (num (s.cell d).val - xs d) ≤ E ∧ ((s.cell d).wip = true → rabs (num (s.cell d).prev - xs d) ≤ E)) ∧
-  (∀ d, d ∈ s.computed → rabs (num (s.cell d).val - xs d) ≤ q * E)
+/-- relative to a set of cells `R`: all values a read can return are within `E` of the fixed point; cells
+    computed in this pass within `q·E` -/
+def GH (R : Nat → Prop) (xs : Nat → Rat) (q E : Rat) (s : St) : Prop :=
+  (∀ d, R d → rabs (num (s.cell d).val - xs d) ≤ E ∧
+    ((s.cell d).wip = true → rabs (num (s.cell d).prev - xs d) ≤ E)) ∧
+  (∀ d, d ∈ s.computed → R d → rabs (num (s.cell d).val - xs d) ≤ q * E)
 
-theorem curValue_bound {xs : Nat → Rat} {q E : Rat} {s : St} (h : GH xs q E s) (c : Nat) :
-    rabs (num (curValue s c) - xs c) ≤ E := by
+/-- `R` is closed under the reads of its formula cells -/
+def ReadClosed (wb : Workbook) (R : Nat → Prop) : Prop :=
+  ∀ c f, R c → wb c = some f → ∀ j, j ∈ f.reads → R j
+
+theorem curValue_bound {R : Nat → Prop} {xs : Nat → Rat} {q E : Rat} {s : St} (h : GH R xs q E s) (c : Nat)
+    (hc : R c) : rabs (num (curValue s c) - xs c) ≤ E := by
   unfold curValue
   cases hw : (s.cell c).wip with
-  | false => simpa using (h.1 c).1
-  | true => simpa using (h.1 c).2 hw
+  | false => simpa using (h.1 c hc).1
+  | true => simpa using (h.1 c hc).2 hw
 
-theorem evalCell_contr (wb : Workbook) (tol : Rat) (xs : Nat → Rat) (q E : Rat)
-    (hq0 : 0 ≤ q) (hq1 : q ≤ 1) (hE : 0 ≤ E) (hlin : LinContr wb xs q) :
-    ∀ k c s, GH xs q E s →
-      GH xs q E (evalCell wb tol k c s).2 ∧ rabs (num (evalCell wb tol k c s).1 - xs c) ≤ E := by
+theorem evalCell_contr (wb : Workbook) (tol : Rat) (R : Nat → Prop) (xs : Nat → Rat) (q E : Rat)
+    (hq1 : q ≤ 1) (hE : 0 ≤ E) (hlin : LinContr wb xs q) (hR : ReadClosed wb R) :
+    ∀ k c s, R c → GH R xs q E s →
+      GH R xs q E (evalCell wb tol k c s).2 ∧ rabs (num (evalCell wb tol k c s).1 - xs c) ≤ E := by
   have hqE : q * E ≤ E := by
     have := Rat.mul_le_mul_of_nonneg_left hq1 hE; grind
   intro k
   induction k with
   | zero =>
-    intro c s h
+    intro c s hRc h
     unfold evalCell
     split
     · split
-      · exact ⟨h, curValue_bound h c⟩
-      · exact ⟨h, curValue_bound h c⟩
-    · exact ⟨h, curValue_bound h c⟩
+      · exact ⟨h, curValue_bound h c hRc⟩
+      · exact ⟨h, curValue_bound h c hRc⟩
+    · exact ⟨h, curValue_bound h c hRc⟩
   | succ k ih =>
-    intro c s h
+    intro c s hRc h
     unfold evalCell
     split
     · rename_i hn
       obtain ⟨hw, hc⟩ := needsCalc_true hn
       split
-      · exact ⟨h, curValue_bound h c⟩
+      · exact ⟨h, curValue_bound h c hRc⟩
       · rename_i f hf
         obtain ⟨terms, b, hfe, hrow, hfix⟩ := hlin c f hf
-        have hreads : ∀ (ts : List (Rat × Nat)) (s1 : St), GH xs q E s1 →
-            GH xs q E (mapAccum (evalCell wb tol k) (ts.map (·.2)) s1).2 ∧
+        have hRreads : ∀ t, t ∈ terms → R t.2 := by
+          intro t ht
+          apply hR c f hRc hf
+          rw [hfe]; simp only [linFormula]
+          exact List.mem_map_of_mem ht
+        have hreads : ∀ (ts : List (Rat × Nat)) (s1 : St), (∀ t, t ∈ ts → R t.2) → GH R xs q E s1 →
+            GH R xs q E (mapAccum (evalCell wb tol k) (ts.map (·.2)) s1).2 ∧
             rabs (linComb (ts.map (·.1)) (mapAccum (evalCell wb tol k) (ts.map (·.2)) s1).1 - linSum ts xs)
               ≤ rowSum ts * E := by
           intro ts
           induction ts with
           | nil =>
-            intro s1 h1; refine ⟨h1, ?_⟩
+            intro s1 _ h1; refine ⟨h1, ?_⟩
             simp only [List.map_nil, mapAccum, linComb, linSum, rowSum]
             unfold rabs; split <;> grind
           | cons t ts iht =>
-            intro s1 h1
+            intro s1 hRt h1
             obtain ⟨a, j⟩ := t
-            have e1 := ih j s1 h1
-            have e2 := iht (evalCell wb tol k j s1).2 e1.1
+            have e1 := ih j s1 (hRt (a, j) (List.mem_cons_self ..)) h1
+            have e2 := iht (evalCell wb tol k j s1).2 (fun t ht => hRt t (List.mem_cons_of_mem _ ht)) e1.1
             refine ⟨e2.1, ?_⟩
             simp only [List.map_cons, mapAccum, linComb, linSum, rowSum]
             have m := rabs_mul_le a _ E e1.2
@@ -205,15 +216,15 @@ theorem evalCell_contr (wb : Workbook) (tol : Rat) (xs : Nat → Rat) (q E : Rat
             have r2 : a * xs j + L - (a * xs j + linSum ts xs) = L - linSum ts xs := by grind
             rw [r1, r2] at tri
             grind
-        have h1 : GH xs q E (startCalcs s c) := by
-          refine ⟨fun d => ?_, fun d hd => ?_⟩
+        have h1 : GH R xs q E (startCalcs s c) := by
+          refine ⟨fun d hd => ?_, fun d hd hRd => ?_⟩
           · by_cases hdc : d = c
-            · subst hdc; simp; exact (h.1 d).1
-            · rw [cell_startCalcs_ne s c d hdc]; exact h.1 d
+            · subst hdc; simp; exact (h.1 d hd).1
+            · rw [cell_startCalcs_ne s c d hdc]; exact h.1 d hd
           · have hd' : d ∈ s.computed := hd
             have hne : d ≠ c := by intro e; subst e; exact hc hd'
-            rw [cell_startCalcs_ne s c d hne]; exact h.2 d hd'
-        have hr := hreads terms (startCalcs s c) h1
+            rw [cell_startCalcs_ne s c d hne]; exact h.2 d hd' hRd
+        have hr := hreads terms (startCalcs s c) hRreads h1
         subst hfe
         simp only [linFormula] at hr ⊢
         generalize (mapAccum (evalCell wb tol k) (List.map (·.2) terms) (startCalcs s c)) = r at hr
@@ -225,10 +236,10 @@ theorem evalCell_contr (wb : Workbook) (tol : Rat) (xs : Nat → Rat) (q E : Rat
           rw [e]
           have := Rat.mul_le_mul_of_nonneg_left hrow hE
           grind
-        refine ⟨⟨fun d => ?_, fun d hd => ?_⟩, Rat.le_trans hv hqE⟩
+        refine ⟨⟨fun d hRd => ?_, fun d hd hRd => ?_⟩, Rat.le_trans hv hqE⟩
         · by_cases hdc : d = c
           · subst hdc; simp; exact Rat.le_trans hv hqE
-          · rw [cell_setValue_ne _ _ _ _ _ hdc]; exact h2.1 d
+          · rw [cell_setValue_ne _ _ _ _ _ hdc]; exact h2.1 d hRd
         · by_cases hdc : d = c
           · subst hdc; simp; exact hv
           · rw [cell_setValue_ne _ _ _ _ _ hdc]
@@ -237,14 +248,15 @@ theorem evalCell_contr (wb : Workbook) (tol : Rat) (xs : Nat → Rat) (q E : Rat
               rcases hd with h' | h'
               · exact absurd h' hdc
               · exact h'
-            exact h2.2 d this
-    · exact ⟨h, curValue_bound h c⟩
+            exact h2.2 d this hRd
+    · exact ⟨h, curValue_bound h c hRc⟩
 
-theorem mapAccum_contr (wb : Workbook) (tol : Rat) (xs : Nat → Rat) (q E : Rat)
-    (hq0 : 0 ≤ q) (hq1 : q ≤ 1) (hE : 0 ≤ E) (hlin : LinContr wb xs q) (k : Nat) :
-    ∀ cs s, GH xs q E s → GH xs q E (mapAccum (evalCell wb tol k) cs s).2
-  | [], _, h => h
-  | c :: cs, s, h =>
-    mapAccum_contr wb tol xs q E hq0 hq1 hE hlin k cs _ (evalCell_contr wb tol xs q E hq0 hq1 hE hlin k c s h).1
+theorem mapAccum_contr (wb : Workbook) (tol : Rat) (R : Nat → Prop) (xs : Nat → Rat) (q E : Rat)
+    (hq1 : q ≤ 1) (hE : 0 ≤ E) (hlin : LinContr wb xs q) (hR : ReadClosed wb R) (k : Nat) :
+    ∀ cs s, (∀ c, c ∈ cs → R c) → GH R xs q E s → GH R xs q E (mapAccum (evalCell wb tol k) cs s).2
+  | [], _, _, h => h
+  | c :: cs, s, hcs, h =>
+    mapAccum_contr wb tol R xs q E hq1 hE hlin hR k cs _ (fun c' hc' => hcs c' (List.mem_cons_of_mem _ hc'))
+      (evalCell_contr wb tol R xs q E hq1 hE hlin hR k c s (hcs c (List.mem_cons_self ..)) h).1
 
 end Pycel.Iter
